@@ -115,6 +115,14 @@ func genC09Case(r *rand.Rand, idx int64, orders int) *c09Case {
 	if r.IntN(2) == 0 {
 		c.Cfg, c.CfgKind = typed, "typed"
 	}
+	if idx%5 == 3 {
+		// relations declared with PLAIN types only: in the default mode declared
+		// types are not enforced on write and check follows every stored subject
+		// set, so expand has to follow them as well
+		c.Cfg, c.CfgKind = &Cfg{NS: []*NSDef{{Name: "User"},
+			{Name: "Group", Rels: []*RelDef{{Name: "members", Types: []TypeRef{{NS: "User"}}}}},
+			{Name: "Doc", Rels: []*RelDef{{Name: "viewers", Types: []TypeRef{{NS: "User"}}}}}}}, "typed-plain"
+	}
 	root := gset("R")
 	if r.IntN(3) == 0 {
 		root = &ketoapi.SubjectSet{Namespace: "Doc", Object: "d", Relation: "viewers"}
@@ -275,6 +283,27 @@ func genC09Case(r *rand.Rand, idx int64, orders int) *c09Case {
 			}
 			v.Relation = ""
 		}
+	}
+	// shadows: relationships with the SAME object name and relation name in the
+	// other namespace (an object's UUID does not depend on its namespace): they
+	// belong to other subject sets and must not show up in these trees
+	if idx%4 == 1 {
+		other := map[string]string{"Group": "Doc", "Doc": "Group"}
+		seenSet := map[string]bool{}
+		n := 0
+		for _, t := range append([]*Tup(nil), ts...) {
+			k := t.Namespace + "\x00" + t.Object + "\x00" + t.Relation
+			if seenSet[k] || other[t.Namespace] == "" || n >= 6 {
+				continue
+			}
+			seenSet[k] = true
+			n++
+			ts = append(ts, tupID(other[t.Namespace], t.Object, t.Relation, fmt.Sprintf("intruder%d", n)))
+			if n%2 == 0 {
+				ts = append(ts, tupSet(other[t.Namespace], t.Object, t.Relation, "Group", "intruders", "members"))
+			}
+		}
+		ts = append(ts, tupID("Group", "intruders", "members", "intruder0"))
 	}
 	c.tuples = ts
 	c.roots = []*ketoapi.SubjectSet{root}
